@@ -7,7 +7,7 @@ if grep -rnE '\b(Admitted|admit|Axiom|Parameter|Conjecture|Admit Obligations)\b|
 fi
 /venv/bin/python tools/regen.py /repo coq/gen >/dev/null
 cd coq
-(echo "-Q . IQ"; ls gen/*.v *.v props/*.v) > _CoqProject
+(echo "-Q . IQ"; ls gen/*.v *.v props/*.v | sort) > _CoqProject
 coq_makefile -f _CoqProject -o Makefile >/dev/null
 make clean >/dev/null 2>&1 || true
 timeout 3000 make -j16 > /tmp/iqv_setup_make.log 2>&1 || { tail -40 /tmp/iqv_setup_make.log; exit 1; }
